@@ -126,8 +126,10 @@ fn inline_table_keyvals(
 }
 
 fn keyval(input: &mut Input<'_>) -> ModalResult<(Vec<Key>, (Key, Item))> {
-    (
-        key,
+    let mut path = key.parse_next(input)?;
+    // The tables created by a dotted key nest the value just like inline tables do
+    let (_, v) = check_recursion_nested(
+        path.len() - 1,
         cut_err((
             one_of(KEYVAL_SEP)
                 .context(StrContext::Expected(StrContextValue::CharLiteral('.')))
@@ -135,17 +137,15 @@ fn keyval(input: &mut Input<'_>) -> ModalResult<(Vec<Key>, (Key, Item))> {
             (ws.span(), value, ws.span()),
         )),
     )
-        .map(|(key, (_, v))| {
-            let mut path = key;
-            let key = path.pop().expect("grammar ensures at least 1");
+    .parse_next(input)?;
 
-            let (pre, v, suf) = v;
-            let pre = RawString::with_span(pre);
-            let suf = RawString::with_span(suf);
-            let v = v.decorated(pre, suf);
-            (path, (key, Item::Value(v)))
-        })
-        .parse_next(input)
+    let key = path.pop().expect("grammar ensures at least 1");
+
+    let (pre, v, suf) = v;
+    let pre = RawString::with_span(pre);
+    let suf = RawString::with_span(suf);
+    let v = v.decorated(pre, suf);
+    Ok((path, (key, Item::Value(v))))
 }
 
 #[cfg(test)]
